@@ -347,11 +347,10 @@ def main(run: core.Run, only=None):
     refres = run.drive([{"family": "designs", "cfg": cfg, "reference_only": True} for cfg in dcfgs], family="design-references")
     refs0 = {core.canon(cfg): r["ref"] for cfg, r in zip(dcfgs, refres)}
     cases = []
-    per = 3 if quick else 4
     for cfg in dcfgs:
-        for i in range(0, len(hs), per):
-            cases.append({"family": "designs", "cfg": cfg, "histories": hs[i:i + per], "ref": refs0[core.canon(cfg)]})
-    results = run.drive(cases, family="designs")
+        for h in hs:
+            cases.append({"family": "designs", "cfg": cfg, "histories": [h], "ref": refs0[core.canon(cfg)]})
+    results = run.drive(cases, family="designs", fresh_process=True)
     # the reference signature must be the same in every process that computed it
     refs = {}
     for c, r in zip(cases, results):
